@@ -18,6 +18,7 @@ open RP.Game (Game Action Turn)
 open RP.Codec (Edge)
 
 /-! ## edges -/
+instance : Inhabited Edge := ⟨.draw⟩
 def isChance : Edge → Bool | .draw => true | _ => false
 def isChoice (e : Edge) : Bool := !isChance e
 def isRaise : Edge → Bool | .raise _ _ => true | _ => false
@@ -201,16 +202,14 @@ structure Branch where
   edge : Edge
   parent : Nat
 
+def DTree.push (t : DTree) (n : DNode) : DTree := ⟨t.walker, t.nodes.push n⟩
+
 /-- `Tree::plant` / `Tree::fork`: append the node, then `realize` its bucket -/
 def attach (o : Oracle) (t : DTree) (parent : Option Nat) (e : Edge) (g : Game) : Option DTree :=
   let i := t.size
-  let t' : DTree := { t with nodes := t.nodes.push
-    { parent := parent, edge := e, game := g, hist := 0, abs := 0, menu := 0, pay0 := 0, pay1 := 0 } }
+  let t' := t.push ⟨parent, e, g, 0, 0, 0, 0, 0⟩
   match RP.Codec.pathOfEdges (recall (t'.history i)), RP.Codec.pathOfEdges (t'.menuOf i) with
-  | some h, some m =>
-    some { t with nodes := t.nodes.push
-      { parent := parent, edge := e, game := g, hist := h, abs := o.abs (t'.sweat i), menu := m,
-        pay0 := 0, pay1 := 0 } }
+  | some h, some m => some (t.push ⟨parent, e, g, h, o.abs (t'.sweat i), m, 0, 0⟩)
   | _, _ => none
 
 /-- `Node::branches`: every menu edge with the state it leads to (`apply` asserts `is_allowed`) -/
@@ -246,7 +245,7 @@ def grow (o : Oracle) : Nat → DTree → List Branch → Option DTree
 
 /-- `Blueprint::tree` for the deal `(h0, h1)`; payoffs are filled in by `settle` -/
 def build (o : Oracle) (walker h0 h1 fuel : Nat) : Option DTree :=
-  match attach o { walker := walker, nodes := #[] } none .draw (RP.Game.root h0 h1) with
+  match attach o (⟨walker, #[]⟩ : DTree) none .draw (RP.Game.root h0 h1) with
   | none => none
   | some t =>
     match sample o t 0 with
@@ -265,12 +264,13 @@ def witness {α : Type} [Zero α] [One α] [Div α] [NatCast α]
   | some _ => profile
   | none => (bucket, edges.map (fun e => (e, (0 : α), (1 : α) / (edges.length : α)))) :: profile
 
-/-- inverse-CDF selection (`WeightedIndex::sample`): the first index whose cumulative weight
-    exceeds the uniform draw `x ∈ [0, Σw)` -/
-def pickIndex {α : Type} [Zero α] [Add α] [LT α] [DecidableLT α] : List α → α → Nat
-  | [], _ => 0
-  | w :: ws, x => if x < w then 0 else pickIndex ws (x - w) + 1
-  -- note: `x - w` needs `Sub`; see below
-termination_by l => l.length
+/-- inverse-CDF selection (`WeightedIndex::sample`: `partition_point(|c| c <= x)` over the
+    cumulative weights): the first index whose cumulative weight exceeds the draw `x ∈ [0, Σw)` -/
+def pickIndexAux {α : Type} [Add α] [LT α] [DecidableLT α] : α → List α → α → Nat
+  | _, [], _ => 0
+  | acc, w :: ws, x => if x < acc + w then 0 else pickIndexAux (acc + w) ws x + 1
+
+def pickIndex {α : Type} [Zero α] [Add α] [LT α] [DecidableLT α] (ws : List α) (x : α) : Nat :=
+  pickIndexAux 0 ws x
 
 end RP.TreeShape
